@@ -318,10 +318,29 @@ def run(ctx: Any, prog: Program) -> None:
     ctx.shape('C16.Q1', ok, db, bsd['serialise'], 'dictionary strings are joined / split with STRING_SEP and lzma (de)compressed', func='BinStrDict.serialise', text='dictionary payload coding')
     # resource records inside ent_(un)serialise
     es, eu = db.func('ent_serialise'), db.func('ent_unserialise')
-    wres = [n for n in walk_no_nested(es) if isinstance(n, ast.For) and dotted(n.iter) == 'ent.resources']
-    rres = [n for n in ast.walk(eu) if isinstance(n, ast.While) and dotted(n.test) == 'res_count']
+    # the loops are found by what they do (tag lists + the file-type tables), not by the names of their variables
+    def _mentions(n: ast.AST, *names: str) -> bool:
+        txt = {dotted(x) for x in ast.walk(n) if isinstance(x, (ast.Name, ast.Attribute))}
+        return all(any((t or '').endswith(nm) for t in txt) for nm in names)
+    wres = [n for n in walk_no_nested(es) if isinstance(n, ast.For) and _mentions(n, 'write_tags', 'FILE_TYPE_INDEX')]
+    rres = [n for n in ast.walk(eu) if isinstance(n, (ast.While, ast.For)) and _mentions(n, 'read_tags', 'FILE_TYPE_ORDER')]
+    rres = [n for n in rres if not any(o is not n and any(x is o for x in ast.walk(n)) for o in rres)] or rres
     if len(wres) != 1 or len(rres) != 1:
         raise AnalysisError('resource loops not found in ent_serialise / ent_unserialise')
+    ent_param = es.args.args[0].arg
+    w_iter = wres[0].iter
+    direct = dotted(w_iter) == f'{ent_param}.resources'
+    if not direct:
+        # a local derived from ent.resources (a de-duplicating dict, a filtered list): records of the entity are then missing from the file
+        base_names = {x.id for x in ast.walk(w_iter) if isinstance(x, ast.Name)}
+        derived = any(isinstance(a, (ast.Assign, ast.AnnAssign, ast.For, ast.Expr)) and any(isinstance(x, ast.Name) and x.id in base_names for x in ast.walk(a))
+                      and any(dotted(x) == f'{ent_param}.resources' for x in ast.walk(a)) for a in ast.walk(es))
+        ctx.shape('C16.Q1', derived, db, wres[0], f'the resource loop iterates `{U(w_iter)[:40]}`, which is neither {ent_param}.resources nor derived from it', func='ent_serialise', text='every resource serialised')
+        if derived:
+            ctx.check('C16.Q1', False, db, wres[0], f'ent_serialise writes the resources from `{U(w_iter)[:40]}`, a collection derived from {ent_param}.resources, not the list itself: entries the derivation merges or drops '
+                      '(the same file under two tag conditions, repeated entries) are missing after unserialise()', func='ent_serialise', text='every resource serialised')
+    else:
+        ctx.check('C16.Q1', True, db, wres[0], 'resources written from the entity\'s own list', func='ent_serialise', text='every resource serialised')
     sub = {'BinStrDict.write_tags': 'TAGS', 'BinStrDict.read_tags': 'TAGS'}
     # the branch that carries the tag list, on either side: the `if` whose body calls write_tags / read_tags (its test is the configuration key)
     def tag_test(loop: ast.AST, meth: str) -> Optional[str]:
@@ -589,6 +608,27 @@ def run(ctx: Any, prog: Program) -> None:
     compared_dir = {n.comparators[0].value for n in ast.walk(ep) if isinstance(n, ast.Compare) and dotted(n.left) == 'io_type' and isinstance(n.comparators[0], ast.Constant)}
     if not written_dir or not compared_dir:
         ctx.shape('C16.Q3', False, fgd, ee, 'directive keywords not found', func='EntityDef.export', text='keyword @resources')
+    # the @resources block is written exactly when resources were defined - `()` means "not defined", an empty list means "defined, nothing
+    # needed" (resources_defined() tells them apart).  A truthiness test drops the block for the empty list and the entity reads back undefined.
+    res_ifs = [i for i in ast.walk(ee) if isinstance(i, ast.If) and any(isinstance(c, ast.Constant) and isinstance(c.value, str) and '@resources' in c.value for st in i.body for c in ast.walk(st))]
+    ctx.shape('C16.Q3', len(res_ifs) == 1, fgd, ee, 'EntityDef.export writes the @resources block under one test', func='EntityDef.export', text='resources block written when defined')
+    for ri in res_ifs:
+        ops_ = ri.test.values if isinstance(ri.test, ast.BoolOp) and isinstance(ri.test.op, ast.And) else [ri.test]
+        on_res = [o for o in ops_ if any(isinstance(x, ast.Attribute) and x.attr in ('resources', 'resources_defined') for x in ast.walk(o))]
+        def defined_test(o: ast.AST) -> Optional[bool]:
+            if isinstance(o, ast.Call) and dotted(o.func) == 'self.resources_defined' and not o.args:
+                return True
+            if isinstance(o, ast.Compare) and len(o.ops) == 1 and isinstance(o.ops[0], (ast.NotEq, ast.IsNot)) and dotted(o.left) == 'self.resources' and isinstance(o.comparators[0], ast.Tuple) and not o.comparators[0].elts:
+                return True
+            if dotted(o) == 'self.resources' or (isinstance(o, ast.Call) and dotted(o.func) in ('len', 'bool') and o.args and dotted(o.args[0]) == 'self.resources') \
+                    or (isinstance(o, ast.Compare) and isinstance(o.left, ast.Call) and dotted(o.left.func) == 'len'):
+                return False
+            return None
+        kinds_ = [defined_test(o) for o in on_res]
+        ctx.shape('C16.Q3', bool(on_res) and None not in kinds_, fgd, ri, f'the test `{U(ri.test)[:60]}` on the resources is an enumerated form', func='EntityDef.export', text='resources block written when defined')
+        if on_res and None not in kinds_:
+            ctx.check('C16.Q3', all(kinds_), fgd, ri, f'EntityDef.export writes the @resources block only when `{U(on_res[kinds_.index(False)])[:40] if False in kinds_ else ""}` is true: an entity whose resources are defined but empty '
+                      '(`@resources [ ]`) is written without the block and reads back as "not defined" (resources_defined() flips)', func='EntityDef.export', text='resources block written when defined')
     for kw_ in sorted(written_dir):
         ctx.check('C16.Q3', kw_ in compared_dir, fgd, ee, f'EntityDef.export writes the directive `{kw_}` but EntityDef.parse only recognises {sorted(compared_dir)}', func='EntityDef.export', text=f'keyword {kw_}')
     ctx.shape('C16.Q3', "file.write('\\n\\thalfgridsnap')" in ees and hvals.get('HALF_GRID_SNAP') == 'halfgridsnap', fgd, ee, 'keyword `halfgridsnap`: written literally, parsed as HelperTypes.HALF_GRID_SNAP', func='EntityDef.export', text='keyword halfgridsnap')
@@ -764,6 +804,9 @@ def run(ctx: Any, prog: Program) -> None:
 
 
 MUTANTS: List[Dict[str, Any]] = [
+    {'id': 'resources_deduplicated_on_write', 'file': '_engine_db.py', 'find': "    for res in ent.resources:\n        if res.tags:  # Tags are fairly rare.", 'replace': "    uniq = {}\n    for res in ent.resources:\n        uniq.setdefault((res.filename, res.type), res)\n    for res in uniq.values():\n        if res.tags:  # Tags are fairly rare.", 'expect': 'C16.Q1'},
+    {'id': 'resources_block_by_truthiness', 'file': 'fgd.py', 'find': "        if custom_syntax and self.resources != ():", 'replace': "        if custom_syntax and self.resources:", 'expect': 'C16.Q3'},
+    {'id': 'ok_resources_block_by_predicate', 'file': 'fgd.py', 'find': "        if custom_syntax and self.resources != ():", 'replace': "        if custom_syntax and self.resources_defined():", 'expect': None},
     {'id': 'blank_disp_name_replaced_by_key', 'file': '_engine_db.py', 'find': "    file.write(str_dict(kvdef.disp_name))", 'replace': "    file.write(str_dict(kvdef.disp_name or kvdef.name))", 'expect': 'C16.Q2'},
     {'id': 'bare_default_if_int_parses', 'file': 'fgd.py', 'find': "            if all(x in '0123456789-' for x in default_str):\n                file.write(' : ' + default_str)\n            else:\n                file.write(f' : \"{_fgd_escape(custom_syntax, default_str)}\"')", 'replace': "            try:\n                int(default_str)\n            except ValueError:\n                file.write(f' : \"{_fgd_escape(custom_syntax, default_str)}\"')\n            else:\n                file.write(' : ' + default_str)", 'expect': 'C16.Q4'},
     {'id': 'resource_tags_hoisted', 'file': 'fgd.py', 'find': "                        filename = tok.expect(Token.STRING)\n                        tags = frozenset()\n", 'replace': "                        filename = tok.expect(Token.STRING)\n", 'extra': [{'file': 'fgd.py', 'find': "                resources: list[Resource] = list(entity.resources)\n", 'replace': "                resources: list[Resource] = list(entity.resources)\n                tags = frozenset()\n"}], 'expect': 'C16.Q7'},
